@@ -21,6 +21,8 @@
      integers below min(2^k, 4096), and 2^j - 1, 2^j, 2^j + 1 for every j <= k, shuffled; a scalar
      call passes the largest value alone)
    Property  ArgumentOnly: every call returns the value Gray.tla prescribes for its argument (ret.ok).
+             ArgumentsUnchanged, EarlierResultsUnchanged: frame laws of every call (Dev.ConvInPlace,
+             Dev.ResultBufferReused), observed by the replay around every call.
    Deviation Dev.MemoTableOneShort: a lookup table grown on demand is sized for the largest VALUE
      instead of the number of values: an array whose maximum is exactly 2^k is converted wrongly
      unless an earlier call has already grown the table beyond 2^k.  TLC finds the first call of a
@@ -32,14 +34,17 @@ CONSTANTS Ks,       \* set of exponents k
           Fns, Forms, Tops,
           Dev
 
-VARIABLES warm, ret, lab
-vars == <<warm, ret, lab>>
-View == <<warm, ret>>
+VARIABLES warm, ret, lab,
+          frame    \* frame observations of the last call (call discipline): [args, held] - the argument is as it was
+                   \* passed; the arrays returned by the earlier calls of the history still hold what they held
+vars == <<warm, ret, lab, frame>>
+View == <<warm, ret, frame>>
+FrameOk == [args |-> TRUE, held |-> TRUE]
 
 Bits(k, top) == IF top = "below" THEN k ELSE k + 1        \* bits needed by the largest value
 MaxI(a, b) == IF a > b THEN a ELSE b
 
-Init == warm = 0 /\ ret = [op |-> "none", ok |-> TRUE] /\ lab = [fn |-> "none", form |-> "none", k |-> 0, top |-> "none"]
+Init == warm = 0 /\ frame = FrameOk /\ ret = [op |-> "none", ok |-> TRUE] /\ lab = [fn |-> "none", form |-> "none", k |-> 0, top |-> "none"]
 
 Conv(fn, form, k, top) ==
   LET tableBits == warm                                  \* as-is: the table holds 2^warm entries
@@ -47,11 +52,16 @@ Conv(fn, form, k, top) ==
                /\ tableBits <= k                         \* sized for the codes 0 .. 2^k - 1 only
   IN /\ ret' = [op |-> "conv", ok |-> ~wrong]
      /\ lab' = [fn |-> fn, form |-> form, k |-> k, top |-> top]
+     /\ frame' = [args |-> ~(Dev.ConvInPlace /\ form = "array"),
+                  held |-> ~(Dev.ResultBufferReused /\ form = "array" /\ ret.op = "conv")]
      /\ warm' = IF form = "array" THEN MaxI(warm, IF wrong THEN k ELSE Bits(k, top)) ELSE warm
 
 Next == \E fn \in Fns : \E form \in Forms : \E k \in Ks : \E top \in Tops : Conv(fn, form, k, top)
 
 ArgumentOnly == ret.ok
+\* frame laws (notes/CALL_DISCIPLINE.md)
+ArgumentsUnchanged == frame.args
+EarlierResultsUnchanged == frame.held
 TypeOK == warm \in 0..64 /\ ret.op \in {"none", "conv"}
 
 Emit == EmitEdge([pre |-> [warm |-> warm], post |-> [warm |-> warm'],
